@@ -250,6 +250,19 @@ class SyncedList(SyncedCollection, MutableSequence):
         with self._load_and_save, self._suspend_sync:
             self._data.remove(self._from_base(data=value, parent=self))
 
+    def pop(self, index=-1):  # noqa: D102
+        # The MutableSequence mixin implements pop() as a separate read and
+        # delete, which is not atomic with respect to concurrent writers.
+        with self._load_and_save:
+            ret = self._data.pop(index)
+        return ret
+
+    def reverse(self):  # noqa: D102
+        # The MutableSequence mixin implements reverse() as a series of
+        # separately synchronized element swaps.
+        with self._load_and_save:
+            self._data.reverse()
+
     def clear(self):  # noqa: D102
         if self._root is None:
             # The modification must happen inside the locked section, or a
